@@ -84,6 +84,7 @@ func main() {
 			if i == 0 {
 				rules.EnsureAliases(c)
 				chk(c, l)
+				rules.RunExtra(c, l)
 				for k, v := range c.Units {
 					l.Units[k] = v
 				}
@@ -155,6 +156,7 @@ func runMany(list, tier, repo, verif string, seed int64) int {
 			l := core.NewLedger(id, tier)
 			l.Trusted = rules.TrustedBase
 			chk(c, l)
+			rules.RunExtra(c, l)
 			for k, v := range c.Units {
 				l.Units[k] = v
 			}
